@@ -14,6 +14,17 @@ CLAIMED = {
         note="Bounded model (indices<=6, terms<=3, runs<=2); appends restricted to contiguous runs starting <= last+1 and above the "
              "snapshot (the property does not define gaps); order of get_entries not constrained.",
         ref="DESIGN.md §4 C31"),
+    "C33": dict(
+        text="Quorum.tla models membership (id -> voter/learner, last add wins), heartbeat marks and recorded roles with one action per "
+             "ClusterConfig/ClusterManager mutator. TLC checks quorum intersection and type invariants over all configurations of <=3 ids "
+             "(quick) / <=5 ids (thorough) including repeated additions of one id, voter/learner flips and removals, finds the legacy "
+             "entry-counting rule's counterexample as a self-test, and emits one script per transition; each is replayed on the real "
+             "ClusterManager and TLC validates that every observed healthy=true is allowed by the model state (leader known and strict "
+             "majority of distinct voters active). The intersection lemma is additionally proved for all sizes with TLAPS "
+             "(spec/proofs/QuorumProof.tla, reported under coverage.proofs).",
+        note="The property is an implication (healthy only when ...): reporting unhealthy is never rejected. Membership semantics for a "
+             "repeated id: the last successful add wins. Replication factor 1.",
+        ref="DESIGN.md §4 C33"),
 }
 
 NOT_YET = "check not built yet in this round (planned in DESIGN.md §4); not claimed until its check is green on the unchanged tree"
